@@ -282,9 +282,7 @@ func runSrcFamilyN(c *vf.Check, cases []srcCase, callsOf func(i int) int, o srcO
 	}
 	run.Progs = progs.vals
 	np := len(run.Progs)
-	run.Status = make([]string, np)
 
-	cogen := buildCogen(c)
 	dir := c.S.Sub("src")
 	c.S.WriteModule(dir, "scratch")
 	writeFile(filepath.Join(dir, "rt", "rt.go"), rt.Source)
@@ -315,116 +313,25 @@ func runSrcFamilyN(c *vf.Check, cases []srcCase, callsOf func(i int) int, o srcO
 
 	// go-co packages: one program per file, PerPkg per package
 	coR := &srcRenderer{md: coMode, api: api}
-	npk := (np + o.PerPkg - 1) / o.PerPkg
-	run.Packages = npk
 	hdr := func(pkg string) string {
 		return "//go:build co\n\npackage " + pkg + "\n\nimport (\n" + importLine + "\t\"scratch/rt\"\n)\n\nvar _ = rt.Y\nvar _ " + api + "Iter[int]\n\n"
 	}
-	writePkg := func(pk int) string {
-		name := fmt.Sprintf("gen%03d", pk)
-		d := filepath.Join(dir, name)
-		os.RemoveAll(d)
-		os.RemoveAll(d + "_tmp")
-		var all strings.Builder
-		all.WriteString(hdr(name))
-		all.WriteString("var All = map[int]func(*rt.Rec, int, int) " + api + "Iter[int]{\n")
-		for i := pk * o.PerPkg; i < (pk+1)*o.PerPkg && i < np; i++ {
-			if run.Status[i] != "" {
-				continue
+	u := unitSpec{N: np, PerPkg: o.PerPkg, Stage: o.Stage, Hdr: hdr,
+		File: func(i int) string { return coR.genFunc(fmt.Sprintf("G%d", i), arr(run.Progs[i]), o.Trailing) },
+		All: func(pkg string, live []int) string {
+			var all strings.Builder
+			all.WriteString("var All = map[int]func(*rt.Rec, int, int) " + api + "Iter[int]{\n")
+			for _, i := range live {
+				fmt.Fprintf(&all, "\t%d: G%d,\n", i, i)
 			}
-			fmt.Fprintf(&all, "\t%d: G%d,\n", i, i)
-			writeFile(filepath.Join(d, fmt.Sprintf("p%d_co.go", i)), hdr(name)+coR.genFunc(fmt.Sprintf("G%d", i), arr(run.Progs[i]), o.Trailing))
-		}
-		all.WriteString("}\n")
-		if o.Deleg {
-			all.WriteString(strings.ReplaceAll(strings.ReplaceAll(strings.ReplaceAll(delegCo, "Iter[int]", api+"Iter[int]"), "Yield(", api+"Yield("), "YieldFrom(", api+"YieldFrom("))
-		}
-		writeFile(filepath.Join(d, "all_co.go"), all.String())
-		return d
-	}
-	var mu sync.Mutex
-	sem := make(chan struct{}, 16)
-	var wg sync.WaitGroup
-	var fatal string
-	for pk := 0; pk < npk; pk++ {
-		wg.Add(1)
-		go func(pk int) {
-			defer wg.Done()
-			sem <- struct{}{}
-			defer func() { <-sem }()
-			for attempt := 0; attempt < 3*o.PerPkg+5; attempt++ {
-				d := writePkg(pk)
-				rel := "./" + filepath.Base(d) + "/"
-				mu.Lock()
-				run.CompilerRuns++
-				mu.Unlock()
-				// source gate: rendered go-co source must type-check under -tags co
-				if out, err := c.S.Run(dir, nil, "go", "build", "-tags", "co", rel); err != nil {
-					mu.Lock()
-					fatal = "rendered go-co source does not build under -tags co (renderer / grammar bug):\n" + vf.Trunc(out, 2000)
-					mu.Unlock()
-					return
-				}
-				env := []string{}
-				if o.Stage {
-					env = append(env, "GOCO_VERIF_STAGE_DIR="+d+"stage")
-					os.RemoveAll(d + "stage")
-				}
-				out, err := c.S.Run(dir, env, cogen, "gogen", d)
-				if err != nil {
-					i := strings.Index(out, "COMPILER-PANIC")
-					culprit := -1
-					msg := "compiler exited: " + vf.Trunc(out, 300)
-					if i >= 0 {
-						msg = strings.SplitN(out[i:], "\n", 2)[0]
-						if j := strings.LastIndex(out[:i], "visit file: "); j >= 0 {
-							culprit = progOfLine(strings.SplitN(out[j:], "\n", 2)[0])
-						}
-					}
-					if culprit < 0 {
-						mu.Lock()
-						fatal = "cannot attribute compiler failure to a program: " + msg
-						mu.Unlock()
-						return
-					}
-					mu.Lock()
-					run.Status[culprit] = "panic: " + msg
-					mu.Unlock()
-					continue
-				}
-				out, err = c.S.Run(dir, nil, "go", "build", "-gcflags=-e", rel)
-				if err != nil {
-					n := 0
-					mu.Lock()
-					for _, ln := range strings.Split(out, "\n") {
-						if !strings.Contains(ln, ".go:") {
-							continue
-						}
-						if p := progOfLine(ln); p >= 0 && run.Status[p] == "" {
-							run.Status[p] = "build: " + strings.TrimSpace(ln)
-							n++
-						}
-					}
-					mu.Unlock()
-					if n == 0 {
-						mu.Lock()
-						fatal = "cannot attribute build failure of generated code:\n" + vf.Trunc(out, 2000)
-						mu.Unlock()
-						return
-					}
-					continue
-				}
-				if o.Stage {
-					prepareStage(c, dir, d)
-				}
-				return
+			all.WriteString("}\n")
+			if o.Deleg {
+				all.WriteString(strings.ReplaceAll(strings.ReplaceAll(strings.ReplaceAll(delegCo, "Iter[int]", api+"Iter[int]"), "Yield(", api+"Yield("), "YieldFrom(", api+"YieldFrom("))
 			}
-		}(pk)
-	}
-	wg.Wait()
-	if fatal != "" {
-		vf.Machinery("%s", fatal)
-	}
+			return all.String()
+		}}
+	run.Status, run.Packages, run.CompilerRuns = compileUnits(c, dir, u)
+	npk := run.Packages
 
 	// driver
 	var imp, reg strings.Builder
@@ -459,6 +366,131 @@ func runSrcFamilyN(c *vf.Check, cases []srcCase, callsOf func(i int) int, o srcO
 		run.Outs[i].Crash = r.Crash
 	}
 	return run
+}
+
+// unitSpec describes a set of go-co source units (one function per file) to be put
+// through the real compiler with crash isolation.
+type unitSpec struct {
+	N      int
+	PerPkg int
+	Stage  bool
+	Hdr    func(pkg string) string             // file header (build tag, package clause, imports)
+	File   func(i int) string                  // declarations of unit i (file p<i>_co.go)
+	All    func(pkg string, live []int) string // registration file all_co.go for the units still alive
+}
+
+// compileUnits writes the packages gen000.., checks that the rendered source
+// type-checks under -tags co (else machinery error), runs the REAL compiler on
+// each package and builds the output; a unit that makes the compiler panic or
+// whose generated code does not build is recorded in status and the package is
+// recompiled without it.
+func compileUnits(c *vf.Check, dir string, u unitSpec) (status []string, npk int, compilerRuns int) {
+	cogen := buildCogen(c)
+	if u.PerPkg == 0 {
+		u.PerPkg = 50
+	}
+	status = make([]string, u.N)
+	npk = (u.N + u.PerPkg - 1) / u.PerPkg
+	writePkg := func(pk int) string {
+		name := fmt.Sprintf("gen%03d", pk)
+		d := filepath.Join(dir, name)
+		os.RemoveAll(d)
+		os.RemoveAll(d + "_tmp")
+		var live []int
+		for i := pk * u.PerPkg; i < (pk+1)*u.PerPkg && i < u.N; i++ {
+			if status[i] != "" {
+				continue
+			}
+			live = append(live, i)
+			writeFile(filepath.Join(d, fmt.Sprintf("p%d_co.go", i)), u.Hdr(name)+u.File(i))
+		}
+		writeFile(filepath.Join(d, "all_co.go"), u.Hdr(name)+u.All(name, live))
+		return d
+	}
+	var mu sync.Mutex
+	sem := make(chan struct{}, 16)
+	var wg sync.WaitGroup
+	var fatal string
+	for pk := 0; pk < npk; pk++ {
+		wg.Add(1)
+		go func(pk int) {
+			defer wg.Done()
+			sem <- struct{}{}
+			defer func() { <-sem }()
+			for attempt := 0; attempt < 3*u.PerPkg+5; attempt++ {
+				mu.Lock()
+				d := writePkg(pk)
+				compilerRuns++
+				mu.Unlock()
+				rel := "./" + filepath.Base(d) + "/"
+				// source gate: rendered go-co source must type-check under -tags co
+				if out, err := c.S.Run(dir, nil, "go", "build", "-tags", "co", rel); err != nil {
+					mu.Lock()
+					fatal = "rendered go-co source does not build under -tags co (renderer / grammar bug):\n" + vf.Trunc(out, 2000)
+					mu.Unlock()
+					return
+				}
+				env := []string{}
+				if u.Stage {
+					env = append(env, "GOCO_VERIF_STAGE_DIR="+d+"stage")
+					os.RemoveAll(d + "stage")
+				}
+				out, err := c.S.Run(dir, env, cogen, "gogen", d)
+				if err != nil {
+					i := strings.Index(out, "COMPILER-PANIC")
+					culprit := -1
+					msg := "compiler exited: " + vf.Trunc(out, 300)
+					if i >= 0 {
+						msg = strings.SplitN(out[i:], "\n", 2)[0]
+						if j := strings.LastIndex(out[:i], "visit file: "); j >= 0 {
+							culprit = progOfLine(strings.SplitN(out[j:], "\n", 2)[0])
+						}
+					}
+					if culprit < 0 {
+						mu.Lock()
+						fatal = "cannot attribute compiler failure to a program: " + msg
+						mu.Unlock()
+						return
+					}
+					mu.Lock()
+					status[culprit] = "panic: " + msg
+					mu.Unlock()
+					continue
+				}
+				out, err = c.S.Run(dir, nil, "go", "build", "-gcflags=-e", rel)
+				if err != nil {
+					n := 0
+					mu.Lock()
+					for _, ln := range strings.Split(out, "\n") {
+						if !strings.Contains(ln, ".go:") {
+							continue
+						}
+						if p := progOfLine(ln); p >= 0 && p < u.N && status[p] == "" {
+							status[p] = "build: " + strings.TrimSpace(ln)
+							n++
+						}
+					}
+					mu.Unlock()
+					if n == 0 {
+						mu.Lock()
+						fatal = "cannot attribute build failure of generated code:\n" + vf.Trunc(out, 2000)
+						mu.Unlock()
+						return
+					}
+					continue
+				}
+				if u.Stage {
+					prepareStage(c, dir, d)
+				}
+				return
+			}
+		}(pk)
+	}
+	wg.Wait()
+	if fatal != "" {
+		vf.Machinery("%s", fatal)
+	}
+	return
 }
 
 // prepareStage makes the unoptimised stage copy buildable: it still imports the
